@@ -1080,6 +1080,11 @@ def run(ctx, args):
     report_counterexample(ctx, col, cex)
     ctx.cov["real_checker_follows"] = total_follow
     # ---- machinery verdicts (after the violations have been reported) ----
+    if ctx.n_viol:
+        # the real checker broke the property: that it no longer follows the model of the checker is a consequence,
+        # not a failure of the machinery
+        ctx.count("binding_failures_alongside_violations", len(col.binding) + len(col.sembinding) + len(col.cfdmismatch))
+        return
     if col.binding:
         raise MachineryError(f"{len(col.binding)} real verdicts are explained by neither list-tensor rule of ArityRules.tla, e.g.\n  " + "\n  ".join(col.binding[:5]))
     if col.sembinding:
